@@ -512,8 +512,9 @@ fn run(sh: &mut Shard) {
 /// Length ladders: operator chains of N operands (one operator; two alternating levels; right-nested
 /// assignments), N array elements, N call arguments, N statements, N-deep parentheses / prefix operators /
 /// else-if chains, N around every power of two; the expected tree is built from the precedence table.
-/// Like `case`, for texts that may exceed the parser's nesting limit (500 levels of tree depth): a refusal is
-/// accepted there, a different tree never is.
+/// Like `case`, for texts that may exceed the parser's nesting limit (an implementation limit, U9; it was 500
+/// levels of tree depth and is 100 since the repair of 0.2): the refusal "te diep genest" is accepted from 20
+/// links / levels on, a different tree or another error never is.
 fn case_or_too_deep(sh: &mut Shard, family: &str, text: &str, tree: &[Stmt], may_refuse: bool) {
     if !may_refuse {
         return case(sh, family, text, tree, true);
@@ -525,7 +526,7 @@ fn case_or_too_deep(sh: &mut Shard, family: &str, text: &str, tree: &[Stmt], may
     sh.begin(&|| t.clone());
     sh.count(&format!("family:{family}"));
     match parse_guarded(text) {
-        Parsed::Err(_) => sh.count("chain-ladder-refused-as-too-deep"),
+        Parsed::Err(e) if format!("{e:?}").contains("te diep") => sh.count("chain-ladder-refused-as-too-deep"),
         _ => {
             sh.nontrivial(text);
             check_text(sh, family, text, tree)
@@ -554,7 +555,7 @@ fn chain_ladder(sh: &mut Shard) {
                 tree = infix(tree, op.clone(), operand(i));
                 text.push_str(&format!(" {} {}", opname(&op), operand_text(i)));
             }
-            case_or_too_deep(sh, "chain-ladder", &text, &[es(tree)], n > 480);
+            case_or_too_deep(sh, "chain-ladder", &text, &[es(tree)], n > 20);
         }
         // two alternating levels: a - b * 2 - a * b ...: products group first, the sum is left-associative
         {
@@ -574,7 +575,7 @@ fn chain_ladder(sh: &mut Shard) {
                 text.push_str(&pt);
                 i += 2;
             }
-            case_or_too_deep(sh, "chain-ladder", &text, &[es(tree.unwrap())], n > 900);
+            case_or_too_deep(sh, "chain-ladder", &text, &[es(tree.unwrap())], n > 20);
         }
         // wide: array elements, call arguments (<= 255), statements
         let elems: Vec<Expr> = (0..n).map(operand).collect();
@@ -614,16 +615,16 @@ fn chain_ladder(sh: &mut Shard) {
         }
         // deep (inside the parser's nesting limit)
         if n <= 300 {
-            case_or_too_deep(sh, "chain-ladder", &format!("{}a{}", "( ".repeat(n), " )".repeat(n)), &[es(id("a"))], n > 240);
+            case_or_too_deep(sh, "chain-ladder", &format!("{}a{}", "( ".repeat(n), " )".repeat(n)), &[es(id("a"))], n > 20);
             let mut t = id("a");
             let mut rt = id("a");
             for _ in 0..n {
                 t = prefix(Operator::Not, t);
                 rt = assign(id("b"), rt);
             }
-            case_or_too_deep(sh, "chain-ladder", &format!("{}a", "! ".repeat(n)), &[es(t)], n > 240);
+            case_or_too_deep(sh, "chain-ladder", &format!("{}a", "! ".repeat(n)), &[es(t)], n > 20);
             // (the right side of `=` is parsed above the level of `=`: a nested assignment needs its parentheses)
-            case_or_too_deep(sh, "chain-ladder", &format!("{}a{}", "b = ( ".repeat(n), " )".repeat(n)), &[es(rt)], n > 120);
+            case_or_too_deep(sh, "chain-ladder", &format!("{}a{}", "b = ( ".repeat(n), " )".repeat(n)), &[es(rt)], n > 20);
             // else-if chain of n links
             let mut e = iff(id("a"), vec![es(int(n as i64))], None);
             let mut text = format!("als a {{ {n} }}");
@@ -631,7 +632,7 @@ fn chain_ladder(sh: &mut Shard) {
                 e = iff(id("b"), vec![es(int(k as i64))], Some(vec![es(e)]));
                 text = format!("als b {{ {k} }} anders {text}");
             }
-            case_or_too_deep(sh, "chain-ladder", &text, &[es(e)], n > 120);
+            case_or_too_deep(sh, "chain-ladder", &text, &[es(e)], n > 20);
         }
     }
 }
